@@ -62,6 +62,9 @@ type ContractSet struct {
 	smtX      []string // same, only included when the xattr vocabulary is in use
 	file      string
 	assumes   []string
+	// candidates: invariants tried (Houdini-style) on map-range loops that have no invariant of their own, e.g. a
+	// loop moved into a new helper by a refactoring. A candidate is used only where it is proved inductive.
+	candidates []Clause
 }
 
 func (cs *ContractSet) lookup(fn string) *Contract { return cs.fns[fn] }
@@ -85,7 +88,7 @@ func loadContracts(path string) (*ContractSet, error) {
 	var items []item
 	keywords := map[string]bool{"fn": true, "spec": true, "requires": true, "ensures": true, "mustfail": true, "cover": true,
 		"let": true, "modular": true, "flag": true, "loop": true, "nullable": true, "template": true, "use": true, "smt": true,
-		"smtx": true, "dbinvariant": true, "fun": true, "funx": true, "end": true, "variant": true, "onpanic": true, "onany": true}
+		"smtx": true, "dbinvariant": true, "candidate": true, "fun": true, "funx": true, "end": true, "variant": true, "onpanic": true, "onany": true}
 	for i, raw := range strings.Split(string(data), "\n") {
 		t := strings.TrimSpace(raw)
 		if !strings.HasPrefix(t, "//@") {
@@ -172,6 +175,14 @@ func loadContracts(path string) (*ContractSet, error) {
 			}
 			cs.dbInv = n
 			cs.dbInvSrc = rest
+		case "candidate":
+			// candidate maprange <expr over it, it0, visited>
+			r2 := strings.TrimSpace(strings.TrimPrefix(rest, "maprange"))
+			n, err := parseRSL(r2)
+			if err != nil {
+				return fmt.Errorf("%s:%d: %v", path, line, err)
+			}
+			cs.candidates = append(cs.candidates, Clause{Kind: "invariant", Node: n, Src: r2, Line: line})
 		case "smt":
 			cs.smt = append(cs.smt, rest)
 		case "smtx":
